@@ -48,6 +48,43 @@ def expected_distances(prev="previousSegment", cur="currentSegment"):
     return ref_dist, q_dist, fwd, rev, ref_len, q_len
 
 
+def chain_not_read_from_a_set(ck, rule):
+    """The chain is a SEQUENCE: its members are handed back in the order in which they follow each other along the diagonal (the
+    pairwise conflict resolution works on index neighbours). A set of the members' indices has no order: small integers come back
+    ascending only while they are smaller than the set's table (8 slots up to 4 members, 32 up to 20); {0, 8, 9} iterates 8, 9, 0."""
+    p = ck.ctx.p
+    ck.clause(rule, "the chain is handed back in the order of its predecessor links: it is never read out of a set (iteration order of a "
+                    "set of indices is ascending only by accident of the table size - from nine segments on a chain {0, 8, 9} comes back "
+                    "as 8, 9, 0 and its consecutive members are no admissible neighbours)")
+    cls = p.find_class("SegmentChainer")
+    n = 0
+    hit = False
+    for f in cls.methods.values():
+        sets = set()
+        for x in ast.walk(f.node):
+            if isinstance(x, ast.Assign) and len(x.targets) == 1 and isinstance(x.targets[0], ast.Name) and (
+                    isinstance(x.value, (ast.Set, ast.SetComp)) or (isinstance(x.value, ast.Call) and isinstance(x.value.func, ast.Name)
+                                                                    and x.value.func.id in ("set", "frozenset"))):
+                sets.add(x.targets[0].id)
+        for x in ast.walk(f.node):
+            gens = []
+            if isinstance(x, (ast.ListComp, ast.GeneratorExp)):
+                gens = [g.iter for g in x.generators]
+            elif isinstance(x, ast.For):
+                gens = [x.iter]
+            for it in gens:
+                n += 1
+                if isinstance(it, ast.Name) and it.id in sets and any(
+                        isinstance(y, ast.Subscript) for y in ast.walk(x.elt if hasattr(x, "elt") else x)):
+                    hit = True
+                    ck.violation(rule, f"{short(f)}:chain-from-set", where(f, x),
+                                 f"segments are picked by iterating over the set `{it.id}`: the order of a set is not the order of the chain",
+                                 found=ast.unparse(x)[:120], required="the members in predecessor-link order (a list)")
+    ck.floor(rule + " loops / comprehensions in the chainer", n, 1)
+    if not hit:
+        ck.ok(rule, "SegmentChainer:order", cls.where, f"{n} iterations: none reads segments out of a set")
+
+
 def keyless_tuple_sorts(ck, rule):
     """decorate-sort-undecorate without a key function: sorted([(k, segment), ...]) compares the segments themselves whenever two
     keys are equal - AlignmentSegment defines no order, so chain() raises TypeError for two segments with equal ordering keys (the
@@ -100,6 +137,8 @@ def run(ck):
     join_score(ck)
     if ck.wants("C14.10"):
         keyless_tuple_sorts(ck, "C14.10")
+    if ck.wants("C14.11"):
+        chain_not_read_from_a_set(ck, "C14.11")
     dp(ck)
     ck.clause("C14.8", "the chainer the program runs with is built from the options that configure it: --segmentJoinMultiplier as the "
                        "multiplier, --sequentialityScore as the variant (as C04.1)")
